@@ -70,7 +70,7 @@ def tree_layout(ts):
         ('..%2fx', 'f', 100), ('...', 'd', 0), ('.../t.txt', 'f', 100), ('..a', 'f', 100), ('a..', 'f', 100),
         ('.hidden', 'f', 100), ('@@at.txt', 'f', 100), ('q?x', 'f', 100), ('semi;colon', 'f', 100), ('c:', 'd', 0),
         ('c:/w.txt', 'f', 100), ('%00', 'f', 100), ('%5c', 'f', 100), ('site2', 'd', 0), ('site2/secret.txt', 'f', 100),
-        # recorded finding F-C16a: candidates that are directories
+        # repaired F-C16a: candidates that are directories must be treated as missing
         ('dirindex', 'd', 0), ('dirindex/index.html', 'd', 0),
         ('huge.txt', 'f', 9000), ('huge.txt.gz', 'd', 0),
     ]
@@ -449,24 +449,8 @@ def oracle(case, got, tree):
             return {'detail': 'the designated file exists (and a variant the client accepts) but the answer is 404',
                     'expected': {'one of': ok}}
         return None
-    v = {'detail': 'answer is neither 404, redirect nor the designated file: %s' % json.dumps(got, default=str)[:200],
-         'expected': {'one of': ok} if ok else {'out': 'notfound'}}
-    if out == 'isdir' and got.get('path') in dirs:
-        v['finding'] = 'F-C16a'
-    return v
-
-
-def classify(case, tree, v):
-    """F-C16b: plain mounting and a non-ASCII character in the (decoded) path — the view decodes PATH_INFO twice.
-    Only functional deviations are classified; a file outside the root is never a known finding."""
-    if v and not v.get('finding') and not v.get('safety') and case.get('mount') == 'plain':
-        try:
-            text = raw_path(case, tree).encode('latin-1').decode('utf-8')
-        except UnicodeDecodeError:
-            return v
-        if any(ord(c) >= 128 for c in text):
-            v['finding'] = 'F-C16b'
-    return v
+    return {'detail': 'answer is neither 404, redirect nor the designated file: %s' % json.dumps(got, default=str)[:200],
+            'expected': {'one of': ok} if ok else {'out': 'notfound'}}
 
 
 # ------------------------------------------------------------------------------------------------
@@ -544,7 +528,7 @@ def check_case(case, reply=None):
         return got, mism, v
     tree = get_tree(case['tree'])
     got = impl(case)
-    v = classify(case, tree, oracle(case, got, tree))
+    v = oracle(case, got, tree)
     if v:
         v.update({'case': case, 'impl': got})
         v = json.loads(json.dumps(v, default=str).replace(tree.T, '<T>').replace(tree.pkgname, '<PKG>'))
@@ -559,11 +543,9 @@ def check_case(case, reply=None):
             elif not reply.get('under', True):
                 mism = {'case': case, 'impl': canon_impl(got), 'model': 'served path is not Under the root (underB false)'}
             else:
-                # the Lean spec (what the property demands) must agree with the model, except on the recorded finding
-                # (Vary is not part of the property; a candidate that is a directory changes it)
+                # the Lean spec (what the property demands) must agree with the model (static_view_eq_spec)
                 sp = canon_model(reply['spec'])
-                strip = lambda o: {k: x for k, x in o.items() if k != 'vary'}
-                if strip(sp) != strip(mo) and not (v and v.get('finding')):
+                if sp != mo:
                     mism = {'case': case, 'impl': canon_impl(got), 'model': {'model': mo, 'lean_spec': sp}}
     if mism:
         mism = json.loads(json.dumps(mism, default=str).replace(tree.T, '<T>').replace(tree.pkgname, '<PKG>'))
@@ -758,7 +740,8 @@ def exhaustive_np(maxlen):
     return out
 
 
-# the witnesses of the recorded finding (Props.C16.index_directory_raises), replayed on the real code in every run
+# the witnesses of the repaired defects F-C16a / F-C16b (Props.C16.index_directory_is_missing, plain_mount_non_ascii_served):
+# regression cases, evaluated on the real code in every run
 WITNESSES = [
     {'mount': 'sub', 'kind': 'fs', 'tree': 0, 'encs': 0, 'ae': None, 'pieces': ['/static/', 'dirindex/'], 'qs': ''},
     {'mount': 'plain', 'kind': 'pkg', 'tree': 0, 'encs': 1, 'ae': 'gzip', 'pieces': ['/', 'huge.txt'], 'qs': ''},
@@ -860,7 +843,7 @@ def _run(ctx, rng):
     seen, nontriv = set(), set()
     dist = {'mount': {}, 'kind': {}, 'outcome': {}, 'outcome_by_mount': {}, 'pieces': {}, 'accept_encoding': {}, 'served_encoding': {},
             'content_encodings': {}, 'attack_pieces': {}, 'names_outside_root': 0, 'tuple_refused_by_secure_path': 0,
-            'aux': {}, 'exhaustive_scope': {}, 'known_finding_cases': {}, 'lean_spec_equals_model': 0, 'lean_spec_differs': 0,
+            'aux': {}, 'exhaustive_scope': {}, 'regression_witnesses': {}, 'lean_spec_equals_model': 0, 'lean_spec_differs': 0,
             'trees': {str(t): len(get_tree(t).entries) for t in trees}, 'nontrivial_by_kind': {}}
     known_seen = {}
     for c, got, m, v, r in rows:
@@ -869,13 +852,7 @@ def _run(ctx, rng):
         elif r is not None:
             agree += 1
         if v:
-            if v.get('finding'):
-                bump(dist['known_finding_cases'], v['finding'])
-                bump(known_seen, v['finding'])
-                if known_seen[v['finding']] > 1:
-                    v = None
-            if v:
-                viol.append(v)
+            viol.append(v)
         key = vfutil.canon(c)
         if key not in seen:
             seen.add(key)
@@ -910,12 +887,6 @@ def _run(ctx, rng):
         'what': 'all sequences of <= %d pieces over %r after the mount prefix x {sub,plain} x {fs,pkg}; all subpath tuples of '
                 '<= %d elements over 12 elements x {fs,pkg}; normpath(join("/r", b)) for every b over {/,.,a} up to length %d'
                 % (ctx.n(2, 4), [a for a in EX_ALPHABET if a], ctx.n(2, 4), ctx.n(6, 10))}
-    if mism and not [v for v in viol if not v.get('finding')] and ctx.time_left() > 120:
-        # the runner only searches when there is no violation at all; known findings are always present here, so
-        # the deeper search for a failing input is started from here when the correspondence broke
-        sres = _search(ctx)
-        viol += sres['violations']
-        dist['search_after_mismatch'] = {k: v for k, v in sres.items() if k != 'violations'}
     # the most serious first: when a file outside the root was served, report those cases (the runner shows the shortest)
     safety = [v for v in viol if v.get('safety')]
     dropped = 0
@@ -923,7 +894,9 @@ def _run(ctx, rng):
         dropped = len(viol) - len(safety)
         viol = safety
     viol = [shrink_violation(v) for v in viol[:6]] + viol[6:]
-    notes = ['witness %s -> impl %s' % (json.dumps(w['pieces']), json.dumps(canon_impl(impl(w)), default=str)[:160].replace(get_tree(0).T, '<T>'))
+    for w in WITNESSES:
+        bump(dist['regression_witnesses'], impl(w)['out'])
+    notes = ['regression witness %s -> impl %s' % (json.dumps(w['pieces']), json.dumps(canon_impl(impl(w)), default=str)[:160].replace(get_tree(0).T, '<T>'))
              for w in WITNESSES]
     if dropped:
         notes.append('%d further (functional) violations not listed: a file outside the root was served' % dropped)
